@@ -451,7 +451,9 @@ def lookups_by_name(repo: Repo, run: Run) -> None:
         pass
     m = 0
     for o in probe.obligations:
-        if o["rule"] in ("R2", "R3") and " record" in o["construct"]:
+        if (o["rule"] in ("R2", "R3") and " record" in o["construct"]) or \
+                (o["rule"] == "R1" and "from the first nested real-fault record" in o["construct"]):
+            # (R1: the page-fault decoder has its nested record decoded by parse_event_list, i.e. through the supplied table)
             m += 1
             run.ob("R0", o["module"], o["scope"], f"nested records found through the supplied table (C20/{o['rule']}): {o['construct']}",
                    o["ok"], (o.get("what", "") + " - a record whose id the supplied table does not list under that name is then "
